@@ -5,7 +5,7 @@ use crate::parser::check_generics::{CheckGenerics, GetPath};
 use crate::parser::variant_descs::VariantDescs;
 use crate::parser::{process_fields, MsgAttr, MsgType};
 use crate::utils::{extract_return_type, filter_wheres, SvCasing};
-use convert_case::{Case, Casing};
+use convert_case::Case;
 use proc_macro2::TokenStream;
 use quote::{quote, ToTokens};
 use syn::fold::Fold;
@@ -267,10 +267,24 @@ where
             .map(|variant| variant.emit_dispatch_leg())
     }
 
+    /// Names under which the variants are (de)serialized. Message enums are
+    /// derived with `#[serde(rename_all = "snake_case")]`, so this has to follow
+    /// serde's renaming rule, which differs from `convert_case`'s for names
+    /// containing digits or single letter words (e.g. `Foo2`, `XYZ`).
     pub fn as_names_snake_cased(&self) -> Vec<String> {
         self.variants
             .iter()
-            .map(|variant| variant.name.to_string().to_case(Case::Snake))
+            .map(|variant| {
+                let name = variant.name.to_string();
+                let mut snake = String::with_capacity(name.len() + 4);
+                for (i, ch) in name.char_indices() {
+                    if i > 0 && ch.is_uppercase() {
+                        snake.push('_');
+                    }
+                    snake.push(ch.to_ascii_lowercase());
+                }
+                snake
+            })
             .collect()
     }
 
